@@ -463,3 +463,18 @@ impl Holder {
 pub fn mk(n: u8) -> Pr {
     Pr(format!("call:{}", n))
 }
+
+/// like CF but also `Copy` (with a hand-written, logging `Clone`)
+#[derive(Copy, Debug, PartialEq, Eq)]
+pub struct CFC(pub u8, pub u8);
+impl Clone for CFC {
+    fn clone(&self) -> Self {
+        log(format!("clone:{}:{}", self.0, self.1));
+        CFC(self.0, self.1)
+    }
+    fn clone_from(&mut self, source: &Self) {
+        log(format!("clone_from:{}:{}:{}:{}", self.0, self.1, source.0, source.1));
+        self.0 = source.0;
+        self.1 = source.1;
+    }
+}
